@@ -1056,6 +1056,16 @@ func genFunctionWrapper(n *node) func(*frame) reflect.Value {
 			return v
 		}
 
+		// The receiver of a method value is evaluated, and copied, when the
+		// method value is, not when it is called.
+		var recv reflect.Value
+		if rcvr != nil {
+			recv = rcvr(f)
+			if def.types[numRet].Kind() != reflect.Ptr {
+				recv = detachedCopy(recv) // value receiver: bound by copy
+			}
+		}
+
 		return reflect.MakeFunc(funcType, func(in []reflect.Value) []reflect.Value {
 			// Allocate and init local frame. All values to be settable and addressable.
 			fr := newFrame(f, len(def.types), f.runid())
@@ -1068,7 +1078,7 @@ func genFunctionWrapper(n *node) func(*frame) reflect.Value {
 				d = d[numRet:]
 			} else {
 				// Copy method receiver as first argument.
-				src, dest := rcvr(f), d[numRet]
+				src, dest := recv, d[numRet]
 				sk, dk := src.Kind(), dest.Kind()
 				for {
 					vs, ok := src.Interface().(valueInterface)
